@@ -82,6 +82,7 @@ class Engine(FsMixin, ExprMixin, StmtMixin, CallMixin, SpecMixin, BuiltinMixin, 
         self.inline_keys = set()
         self.mutex_types = {"Mutex"}
         self.strict_fields = False
+        self.merging = True
         self.interference = None
         self.frontier = z3.Int("FRONTIER")
         self.frontier_blocks = []
@@ -111,6 +112,11 @@ class Engine(FsMixin, ExprMixin, StmtMixin, CallMixin, SpecMixin, BuiltinMixin, 
         self.nstmts = self.nfeas = self.nawaits = 0
         self.entry_state = None
         self.loops = {}
+        self.track_writes = set()
+        self.effect_guards = {}
+        self.current_key = None
+        self._guard_done = set()
+        self.loop_ordinals = {}
 
     # ------------------------------------------------------------------ loading real code
     def load(self, key, rel, qualname=None, inline=False, prop=False):
@@ -178,6 +184,15 @@ class Engine(FsMixin, ExprMixin, StmtMixin, CallMixin, SpecMixin, BuiltinMixin, 
         self.current_class = cls
         self.loops = c.get("loops", {})
         self.interference = c.get("interference")
+        self.track_writes = set(c.get("track_writes", []))
+        self.effect_guards = c.get("effect_guards", {})
+        self.current_key = key
+        # ordinal of each for-loop among the loops of the function with the same target text (source order)
+        self.loop_ordinals, seen = {}, {}
+        for node in sorted((x for x in ast.walk(fn) if isinstance(x, (ast.For, ast.AsyncFor))), key=lambda x: (x.lineno, x.col_offset)):
+            t = ast.unparse(node.target)
+            seen[t] = seen.get(t, 0) + 1
+            self.loop_ordinals[id(node)] = seen[t]
         st, binds = self.initial_state(c, fn)
         pre = st.copy()
         for r in c.get("requires", []):
@@ -261,15 +276,21 @@ class Engine(FsMixin, ExprMixin, StmtMixin, CallMixin, SpecMixin, BuiltinMixin, 
                             info=dict(clause=clause_text(p), tag=tag))
         if mods is not None:
             self.check_frame(c, key, entry, b, st, mods)
-        for name, guard in c.get("effect_guards", {}).items():
-            for e in st.trace:
-                if e.name == name and e.st is not None:
-                    eb = dict(b); eb.update({k: v for k, v in e.st.env.items() if isinstance(v, V)})
-                    for k_, a_ in enumerate(e.args): eb[f"_arg{k_}"] = a_
-                    for g in ([guard] if isinstance(guard, (str, tuple)) else guard):
-                        if clause_active(g, self.prop):
-                            self.oblige(f"effect-guard {key}: {name}@L{e.lineno} requires {clause_text(g)}", "effect-guard",
-                                        self.spec(e.st, entry, clause_text(g), eb), e.st, e.lineno)
+
+    def on_effect(self, st, e):
+        """effect-guard obligations: the guard must hold in the state in which the effect happens"""
+        if self.spec_depth or not self.effect_guards:
+            return
+        guard = self.effect_guards.get(e.name)
+        if guard is None:
+            return
+        eb = {k: v for k, v in st.env.items() if isinstance(v, V)}
+        for k_, a_ in enumerate(e.args):
+            eb[f"_arg{k_}"] = a_
+        for g in ([guard] if isinstance(guard, (str, tuple)) else guard):
+            if clause_active(g, self.prop):
+                self.oblige(f"effect-guard {self.current_key}: {e.name}@L{e.lineno} requires {clause_text(g)}", "effect-guard",
+                            self.spec(st, self.entry_state, clause_text(g), eb), st, e.lineno)
 
     def check_frame(self, c, key, entry, binds, st, mods):
         allowed = {}
@@ -296,8 +317,9 @@ class Engine(FsMixin, ExprMixin, StmtMixin, CallMixin, SpecMixin, BuiltinMixin, 
                 if fld not in allowed or allowed[fld] is not None:
                     allowed.setdefault(fld, []).append(obj)
         written = {f for f, _ in st.writes}
+        shared = set((self.interference or {}).get("shared", []))
         for f in sorted(written):
-            if f == "$class":
+            if f == "$class" or f in shared:      # shared fields are havoc-ed at awaits: not attributable to this function
                 continue
             if f in allowed and allowed[f] is None:
                 continue
